@@ -1,0 +1,18 @@
+//go:build verif
+
+/*
+ * Verification exports (C32: publisher / subscribers). Add-only accessors for the external
+ * verification harness. Compiled only with `-tags verif`.
+ */
+
+package badger
+
+// VerifNumSubscribers returns the number of registered subscribers.
+func VerifNumSubscribers(db *DB) int { return db.pub.noOfSubscribers() }
+
+// VerifPublisherNextID returns the id the next subscriber will get.
+func VerifPublisherNextID(db *DB) uint64 {
+	db.pub.Lock()
+	defer db.pub.Unlock()
+	return db.pub.nextID
+}
